@@ -85,7 +85,7 @@ enum Spec {
     Capture { pmax: u64, amax: u64, content: Segs, sizes: Vec<u64> },
     Lifecycle { codes: Vec<u64> },
     /// a real background task through the router; variant: 0 normal, 1 unsupported tool, 2 invalid args,
-    /// 3 post-spawn failure (absolute cwd)
+    /// 3 post-spawn failure (absolute cwd), 4 shell exits while a background writer still holds stderr
     Task { variant: u64, out: Segs, err: Segs, cap: u64, plimit: u64, exit: u64, cancel_after_ms: Option<u64>, page: u64 },
     /// a real foreground `bash` tool run
     Bash { out: Segs, err: Segs, pmax: u64, amax: u64, exit: u64 },
@@ -747,7 +747,9 @@ async fn run_task(w: &mut World, variant: u64, out: &Segs, err: &Segs, cap: u64,
     std::fs::write(w.ws.join(&fo), &outb).unwrap();
     std::fs::write(w.ws.join(&fe), &errb).unwrap();
     let tail = if cancel_after_ms.is_some() { "; sleep 3" } else { "" };
-    let command = format!("cat {fo}; cat {fe} >&2{tail}; exit {exit}");
+    // variant 4: the shell exits at once while a background writer still holds stderr: the terminal
+    // status must wait for the pumps (EOF), so the late output precedes it
+    let command = if variant == 4 { format!("cat {fo}; (sleep 0.2; cat {fe} >&2) & exit {exit}") } else { format!("cat {fo}; cat {fe} >&2{tail}; exit {exit}") };
     let body = match variant {
         1 => json!({"tool": "python", "args": {"command": command}}),
         2 => json!({"tool": "bash", "args": {"command": 17}}),
@@ -778,7 +780,7 @@ async fn run_task(w: &mut World, variant: u64, out: &Segs, err: &Segs, cap: u64,
         }
         tokio::time::sleep(Duration::from_millis(5)).await;
     }
-    tokio::time::sleep(Duration::from_millis(60)).await;
+    tokio::time::sleep(Duration::from_millis(if variant == 4 { 500 } else { 60 })).await;
     frames = task_frames(&w.data, &id);
     let codes: Vec<u64> = frames.iter().map(frame_code).collect();
     if !codes.iter().any(|c| (22..=24).contains(c)) {
@@ -791,7 +793,7 @@ async fn run_task(w: &mut World, variant: u64, out: &Segs, err: &Segs, cap: u64,
         }
     }
     lifecycle_oracle(&mut o, &codes, variant == 2);
-    if variant != 0 {
+    if variant != 0 && variant != 4 {
         if codes.last() != Some(&24) {
             o.fail("failure_not_reported_failed", format!("{codes:?}"));
         }
@@ -1054,6 +1056,7 @@ fn gen_real(r: &mut Rng) -> Spec {
             0 => 1,
             1 => 2,
             2 => 3,
+            3 | 4 => 4,
             _ => 0,
         };
         let out = gen_content(r, &[plimit.min(200), cap.min(200), 20], true);
